@@ -41,6 +41,19 @@ def step_items(props, tier, flavours=FLAVOURS, policies=POLICIES, ops=('get', 'i
     return out
 
 
+def extra_step_items(props, tier):
+    """insert_result (sync engines) and clear (GlobalCache) steps"""
+    out = []
+    for fl in ('G', 'T'):
+        for pol in POLICIES:
+            for op in ('insert_result_ok', 'insert_result_err'):
+                for n in (0, 1, 2):
+                    out.append(dict(kind='step', flavour=fl, policy=pol, limit=True, ttl=False, mem=False, fw=None, n=n, op=op, props=list(props)))
+    for pol in ('FIFO', 'LFU'):
+        for n in (0, 2): out.append(dict(kind='step', flavour='G', policy=pol, limit=True, ttl=False, mem=False, fw=None, n=n, op='clear', props=list(props)))
+    return out
+
+
 def wrap_items(props, tier, pred=None, patterns=('same',), second=(False,)):
     from .wrap import subjects
     out = []
@@ -85,7 +98,7 @@ def inv_items(props, tier):
     return out
 
 
-CONC_SUBJECTS = ['g_lru_l2', 'g_lfu_l2', 'g_random_l2', 'g_tag1', 'g_ttl1', 'g_mem1kb', 'a_lru_l2', 'a_lfu_l2', 'a_arc_l2', 'a_tag1_ev1', 'a_ttl1', 'a_mem1kb']
+CONC_SUBJECTS = ['g_plain', 'a_plain', 'g_lru_l2', 'g_lfu_l2', 'g_random_l2', 'g_tag1', 'g_ttl1', 'g_mem1kb', 'a_lru_l2', 'a_lfu_l2', 'a_arc_l2', 'a_tag1_ev1', 'a_ttl1', 'a_mem1kb']
 
 
 def conc_items(props, tier, want=None):
@@ -96,13 +109,16 @@ def conc_items(props, tier, want=None):
         progs = {'call|inv_with': [[('call', ('new', 0))], [('inv_with',)]], 'call|call': [[('call', ('new', 0))], [('call', ('new', 1))]],
                  'same|same': [[('call', ('fill', 0))], [('call', ('fill', 0))]], 'call|inv_all_with': [[('call', ('new', 0))], [('inv_all_with',)]],
                  'call|inv_cache': [[('call', ('new', 0))], [('inv_cache', it['cache_name'])]], 'call|stats_get': [[('call', ('new', 0))], [('stats_get',)]],
-                 'call|stats_reset': [[('call', ('fill', 0))], [('stats_reset',)]], 'inv_with|inv_cache': [[('inv_with',)], [('inv_cache', it['cache_name'])]]}
+                 'call|stats_reset': [[('call', ('fill', 0))], [('stats_reset',)]], 'inv_with|inv_cache': [[('inv_with',)], [('inv_cache', it['cache_name'])]],
+                 'fill|new': [[('call', ('fill', 0))], [('call', ('new', 0))]], 'dup|dupdup': [[('call', ('new', 0))], [('call', ('new', 0)), ('call', ('new', 0))]]}
         if it['tags']: progs['call|inv_tag'] = [[('call', ('new', 0))], [('inv_tag', it['tags'][0])]]
         for pname, pg in progs.items():
             if want and not want(pname, it): continue
             for nf in (1, 2):
-                if nf == 2 and pname in ('same|same', 'call|stats_get', 'call|stats_reset', 'inv_with|inv_cache') and tier == 'quick': continue
+                if nf == 2 and pname in ('same|same', 'call|stats_get', 'call|stats_reset', 'inv_with|inv_cache', 'dup|dupdup') and tier == 'quick': continue
                 out.append(dict(kind='conc', subject=name, nfill=nf, progs=pg, preempt=2 if tier == 'quick' else 3, props=list(props)))
+        if name in ('g_lru_l2', 'a_lru_l2', 'g_plain', 'a_plain') and (not want or want('tri-same', it)):
+            out.append(dict(kind='conc', subject=name, nfill=1, progs=[[('call', ('new', 0))], [('call', ('new', 0))], [('call', ('new', 0))]], preempt=2, props=list(props), max_paths=20000))
         if tier == 'thorough':
             out.append(dict(kind='conc', subject=name, nfill=1, progs=[[('call', ('new', 0))], [('inv_with',)], [('call', ('new', 1))]], preempt=2, props=list(props), max_paths=20000))
     return out
@@ -129,29 +145,59 @@ def susp_items(props, tier):
                     for nf in ((1,) if tier == 'quick' else (0, 1, 2)):
                         if nf == 0 and inter == 'call_fill': continue
                         out.append(dict(kind='susp', subject=name, suspend_at=g, inter=inter, end=end, nfill=nf, props=list(props)))
+                        if r['intended']['invalidate_on'] and nf >= 1: out.append(dict(kind='susp', subject=name, suspend_at=g, inter=inter, end=end, nfill=nf, target='fill', props=list(props)))
+    return out
+
+
+def stats_items(props, tier):
+    out = []
+    out.append(dict(kind='stats', subjects=['g_named', 'a_named', 'g_lru_l2'], calls=[('g_named', 0), ('g_named', 0), ('a_named', 0), ('g_named', 1)], queries=['custom_g', 'g_named', 'custom_a', 'a_named', 'g_lru_l2', 'nothing'], reset='custom_g', props=list(props)))
+    out.append(dict(kind='stats', subjects=['g_plain', 'a_plain', 't_plain'], calls=[('g_plain', 0), ('a_plain', 0), ('a_plain', 0), ('t_plain', 0), ('t_plain', 0)], queries=['g_plain', 'a_plain', 't_plain'], reset='a_plain', props=list(props)))
+    out.append(dict(kind='stats', subjects=['g_named_nometa', 'm_ref0', 'a_arity0'], calls=[('g_named_nometa', 0), ('a_arity0', 0), ('a_arity0', 0), ('g_named_nometa', 1), ('g_named_nometa', 0)], queries=['other_name', 'g_named_nometa', 'a_arity0'], reset='unknown_name', props=list(props)))
+    return out
+
+
+def cconc_items(props, tier):
+    out = []
+    pols = ['FIFO', 'LRU', 'LFU', 'Random'] + (['ARC', 'TLRU'] if tier == 'thorough' else [])
+    for fl in ('G', 'A'):
+        for pol in pols:
+            for n in ((1, 2) if tier == 'quick' else (1, 2, 3)):
+                P_ = [('ins|ins', [[('insert', ('new', 0))], [('insert', ('new', 1))]], {}),
+                      ('ins|get', [[('insert', ('new', 0))], [('get', ('pre', 0))]], dict(ttl=True)),
+                      ('reins|get', [[('insert', ('pre', 0))], [('get', ('pre', 0))]], dict(ttl=True)),
+                      ('get|get', [[('get', ('pre', 0))], [('get', ('pre', 0))]], dict(ttl=True)),
+                      ('reins|reins', [[('insert', ('pre', 0))], [('insert', ('pre', 0))]], {})]
+                if fl == 'G': P_.append(('ins|clear', [[('insert', ('new', 0))], [('clear',)]], {}))
+                if n == 1: P_.append(('insmem|get', [[('insert_with_memory', ('new', 0))], [('get', ('pre', 0))]], dict(ttl=True, mem=True)))
+                for nm, pg, kw in P_:
+                    if pol in ('LFU', 'Random') and nm in ('get|get',) and tier == 'quick': continue
+                    out.append(dict(kind='cconc', flavour=fl, policy=pol, n=n, progs=pg, preempt=2 if tier == 'quick' else 3, props=list(props), **kw))
     return out
 
 
 def items_for(prop, tier):
     p = prop
-    if p == 'C01': return step_items(['C01'], tier) + wrap_items(['C01'], tier, second=(False, True))
-    if p == 'C03': return step_items(['C03'], tier, ops=('get', 'insert'), need=lambda fl, pol, op, L, T, M, fw: not L and not T and not M) + wrap_items(['C03'], tier, pred=lambda r: not r['intended']['cache_if'] and not r['intended']['invalidate_on'], second=(False, True)) + conc_items(['C03'], tier, want=lambda pn, it: pn in ('same|same', 'call|call'))
+    if p == 'C01': return step_items(['C01'], tier) + extra_step_items(['C01'], tier) + wrap_items(['C01'], tier, second=(False, True))
+    if p == 'C03': return step_items(['C03'], tier, ops=('get', 'insert'), need=lambda fl, pol, op, L, T, M, fw: not L and not T and not M) + wrap_items(['C03'], tier, pred=lambda r: not r['intended']['cache_if'] and not r['intended']['invalidate_on'], second=(False, True)) + conc_items(['C03'], tier, want=lambda pn, it: pn in ('same|same', 'call|call', 'dup|dupdup', 'tri-same'))
     if p == 'C04': return step_items(['C04'], tier, need=lambda fl, pol, op, L, T, M, fw: L or op == 'get')
-    if p == 'C05': return step_items(['C05'], tier, ops=('insert_with_memory',))
+    if p == 'C05':
+        from .vc_est import CASES
+        return step_items(['C05'], tier, ops=('insert_with_memory',)) + [dict(kind='est', case=c, n=n, props=['C05']) for c in CASES for n in ((0, 2) if c in ('Vec', 'slice') else (2,))] + wrap_items(['C05'], tier, pred=lambda r: r['group'] in ('mem', 'res', 'cif') )
     if p == 'C06': return step_items(['C06'], tier, ops=('get', 'insert'), need=lambda fl, pol, op, L, T, M, fw: T or op == 'insert')
     if p == 'C07': return step_items(['C07'], tier, policies=['FIFO', 'LRU'])
     if p == 'C08': return step_items(['C08'], tier, policies=['LFU', 'ARC', 'TLRU'])
     if p == 'C15':
         c = conc_items(['C15'], tier, want=lambda pn, it: pn in ('same|same', 'call|call'))
         for x in c: x['atomics'] = True
-        return step_items(['C15'], tier, flavours=['G', 'A'], ops=('get',)) + c
-    if p == 'C16': return step_items(['C16'], tier) + wrap_items(['C16'], tier, pred=lambda r: r['group'] in ('cfg', 'mem', 'res', 'cif', 'inv', 'method', 'sig')) + [x for x in inv_items(['C16'], tier) if x['mode'] != 'group' or x['name'] in ('t1', 'custom_g')]
-    if p == 'C09': return wrap_items(['C09'], tier, pred=lambda r: r['intended']['result'], second=(False, True))
+        return step_items(['C15'], tier, flavours=['G', 'A'], ops=('get',)) + c + stats_items(['C15'], tier)
+    if p == 'C16': return step_items(['C16'], tier) + extra_step_items(['C16'], tier) + wrap_items(['C16'], tier, pred=lambda r: r['group'] in ('cfg', 'mem', 'res', 'cif', 'inv', 'method', 'sig')) + [x for x in inv_items(['C16'], tier) if x['mode'] != 'group' or x['name'] in ('t1', 'custom_g')]
+    if p == 'C09': return extra_step_items(['C09'], tier) + wrap_items(['C09'], tier, pred=lambda r: r['intended']['result'], second=(False, True))
     if p == 'C10': return wrap_items(['C10'], tier, pred=lambda r: r['intended']['cache_if'] or r['group'] in ('plain', 'res'), second=(False,))
     if p == 'C11': return wrap_items(['C11'], tier, pred=lambda r: r['intended']['invalidate_on'] or r['group'] in ('plain',), second=(False, True))
     if p == 'C02': return key_items(['C02'], tier) + wrap_items(['C02'], tier, pred=lambda r: r['group'] in ('sig', 'method', 'plain'))
     if p == 'C20': return susp_items(['C20'], tier)
-    if p in ('C17', 'C18'): return conc_items([p], tier)
+    if p in ('C17', 'C18'): return conc_items([p], tier) + cconc_items([p], tier)
     if p in ('C12', 'C13'): return inv_items([p], tier)
     if p == 'C14': return wrap_items(['C14'], tier, pred=lambda r: r['group'] in ('cfg', 'plain', 'sig', 'method', 'meta', 'mem'), patterns=('same', 'other-thread'))
     if p == 'C19': return wrap_items(['C19'], tier)
